@@ -42,7 +42,7 @@ func opName(raw json.RawMessage) string {
 
 type ReflStats struct {
 	States, Transitions, Edges, Reads int64
-	NilOrigins, NilChecks            int64
+	NilOrigins, NilChecks             int64
 	Jobs                              int
 	Sample                            any
 }
@@ -234,15 +234,116 @@ func mcReflectCheck(c *Ctx, inScope func(v ReflVerdict) bool) {
 	}
 }
 
+// reflectTraceRun records long random operation histories on every message type (pulsar and its
+// dynamicpb twin in lock-step) and validates them with Trace_Reflect.
+func reflectTraceRun(c *Ctx, histories, length int, inScope func(what, op string) bool) {
+	var mu sync.Mutex
+	var wg sync.WaitGroup
+	sem := make(chan struct{}, 12)
+	var events, cases int64
+	for i, t := range c.S.Types {
+		if t.Fields == 0 {
+			continue
+		}
+		wg.Add(1)
+		sem <- struct{}{}
+		go func(i int, t TypeInfo) {
+			defer wg.Done()
+			defer func() { <-sem }()
+			dir := filepath.Join(c.S.Dir, "rtrace", fmt.Sprintf("t%d", i))
+			os.MkdirAll(dir, 0o755)
+			fail := func(f string, a ...any) {
+				mu.Lock()
+				c.R.InternalErr("Trace_Reflect %s: %s", t.Name, fmt.Sprintf(f, a...))
+				mu.Unlock()
+			}
+			schema := filepath.Join(dir, "schema.json")
+			evs := filepath.Join(dir, "events.ndjson")
+			if o, err := c.S.HRun(2*time.Minute, "schema", "--type", t.Name, "--out", schema); err != nil {
+				fail("h schema: %v %s", err, trunc(o, 300))
+				return
+			}
+			h := histories
+			if t.Fields > 40 {
+				h = histories/2 + 1
+			}
+			if o, err := c.S.HRun(20*time.Minute, "reflect-record", "--type", t.Name, "--n", fmt.Sprint(h), "--len", fmt.Sprint(length), "--seed", fmt.Sprint(c.Seed*77+int64(i)), "--out", evs); err != nil {
+				fail("reflect-record: %v %s", err, trunc(o, 800))
+				return
+			}
+			lines := readLines(evs)
+			res, err := RunTLC(filepath.Join(dir, "tlc"), TLCOpts{Spec: "Trace_Reflect", Cfg: "Trace_Reflect.cfg", Env: map[string]string{"VERIF_SCHEMA": schema, "VERIF_TRACE": evs}, Timeout: 30 * time.Minute, HeapMB: 2500})
+			if err != nil || res.Err != "" {
+				fail("tlc: %v %s", err, trunc(res.Err, 800))
+				return
+			}
+			done := false
+			mu.Lock()
+			defer mu.Unlock()
+			for _, l := range res.Lines {
+				if strings.HasPrefix(l, "TRACE-DONE") {
+					done = true
+				}
+				if !strings.HasPrefix(l, "VERDICT ") {
+					continue
+				}
+				var v struct {
+					L, C      int
+					Op, What  string
+					Impl, Ref bool
+				}
+				json.Unmarshal([]byte(l[8:]), &v)
+				ev := ""
+				if v.L >= 1 && v.L <= len(lines) {
+					ev = lines[v.L-1]
+				}
+				if !v.Ref {
+					c.R.InternalErr("spec and reference disagree on a recorded history step: type=%s op=%s event=%s", t.Name, v.Op, trunc(ev, 400))
+					continue
+				}
+				if inScope(v.What, v.Op) {
+					// the history up to this step (for replay)
+					start := v.L - 1
+					for start > 0 && !strings.HasPrefix(lines[start], `{"case"`) && !strings.Contains(lines[start][:40], `"ev":"new"`) {
+						start--
+					}
+					c.R.Violate(fmt.Sprintf("trace:%s:%s", v.What, v.Op), fmt.Sprintf("type=%s history step %d: %s", t.Name, v.L, trunc(ev, 500)),
+						map[string]any{"engine": "trace_reflect", "type": t.Name, "event": json.RawMessage(trunc(ev, 4000))})
+				}
+			}
+			if !done {
+				c.R.InternalErr("Trace_Reflect %s did not consume the trace", t.Name)
+			}
+			events += int64(len(lines))
+			cases += int64(h)
+			os.RemoveAll(dir)
+		}(i, t)
+	}
+	wg.Wait()
+	c.R.AddCount("traces_validated_against_impl", cases)
+	c.R.AddCount("evaluations", events)
+	c.R.AddCount("transitions", events)
+	c.R.Cov["random_history_events"] = events
+	c.R.Cov["random_histories"] = cases
+}
+
 var reflTrusted = []string{"TLC 1.8.0 / SANY", "CommunityModules Json/IOUtils", "protobuf-go v1.34.0 dynamicpb (reference, replayed in lock-step)", "protobuf-go impl reflection over the generated struct (independent state projection)", "Go toolchain"}
 
 func init() {
 	register(&Check{ID: "C08", Level: "model_checking", Run: func(c *Ctx) {
 		c.R.Trusted = reflTrusted
 		mcReflectCheck(c, func(v ReflVerdict) bool { return !strings.HasPrefix(v.What, "nil:") })
+		reflectTraceRun(c, c.pick(4, 40), c.pick(60, 200), func(what, op string) bool { return true })
 	}})
 	register(&Check{ID: "C09", Level: "model_checking", Run: func(c *Ctx) {
 		c.R.Trusted = reflTrusted
-		mcReflectCheck(c, func(v ReflVerdict) bool { return strings.HasPrefix(v.What, "nil:") })
+		mcReflectCheck(c, func(v ReflVerdict) bool {
+			if strings.HasPrefix(v.What, "nil:") {
+				return true
+			}
+			// the empty read-only views handed out by Get in ordinary states
+			rd := opName(v.Read)
+			return v.What == "read" && (rd == "Get" || rd == "Getter" || rd == "IsValid" || rd == "LIsValid" || rd == "MIsValid")
+		})
 	}})
 }
